@@ -13,7 +13,7 @@ static const PinDef DEFS[6] = {{ATTACH_POS_LEFT, ATTACH_POS_CENTRE, ATTACH_POS_M
                                {ATTACH_POS_CENTRE, ATTACH_POS_TOP, 10, ATTACH_POS_MIN_OFFSET, ConnDirUp, "T"}, {ATTACH_POS_CENTRE, ATTACH_POS_BOTTOM, 10, ATTACH_POS_MAX_OFFSET, ConnDirDown, "B"},
                                {ATTACH_POS_RIGHT, 0.25, ATTACH_POS_MAX_OFFSET, 5, ConnDirRight, "R1"}, {ATTACH_POS_RIGHT, 0.75, ATTACH_POS_MAX_OFFSET, 15, ConnDirRight, "R2"}};
 struct Cfg { bool ortho; double inside; bool proportional; int dirMode; int excl; int mv; int cps; bool toJunction; int heap; bool early = false; int extra = 0; bool costs = false; int cpDirs = 0; };   // cpDirs: 1 checkpoints may only be ARRIVED AT from the left (ConnDirLeft), 2 only be LEFT towards smaller y (libavoid's VertInf::directionFrom calls that ConnDirDown), 3 both   // extra: pins of ANOTHER class on the same shape (1: a ConnDirAll centre pin, 2: directional pins at the middle of all four sides)   // early: the move/resize (and a junction move) is issued BEFORE the first processTransaction   // dirMode 0 automatic(ConnDirNone) 1 explicit side 2 All; excl 0 default 1 forced exclusive 2 forced shared
-static string cfg_str(const Cfg &c) { return mcx::fmt("%s insideOffset=%g %s dirs=%s exclusive=%s then=%s checkpoints=%d far_end=%s heap=%d", c.ortho ? "orthogonal" : "polyline", c.inside, c.proportional ? "proportional" : "absolute", c.dirMode == 0 ? "automatic" : c.dirMode == 1 ? "side" : "all", c.excl == 0 ? "default" : c.excl == 1 ? "forced" : "shared", c.mv == 0 ? "nothing" : c.mv == 1 ? "translate" : c.mv == 2 ? "resize" : c.mv == 3 ? "move-junctions" : "move-junctions+translate", c.cps, c.toJunction ? "junction" : "point", c.heap) + (c.early ? " move-before-first-transaction" : "") + (c.extra == 1 ? " +centre pin of another class" : c.extra == 2 ? " +four side pins of another class" : "") + (c.costs ? " +connection costs (50 on every other pin)" : "") + (c.cpDirs ? mcx::fmt(" checkpoint directions#%d", c.cpDirs) : string()); }
+static string cfg_str(const Cfg &c) { return mcx::fmt("%s insideOffset=%g %s dirs=%s exclusive=%s then=%s checkpoints=%d far_end=%s heap=%d", c.ortho ? "orthogonal" : "polyline", c.inside, c.proportional ? "proportional" : "absolute", c.dirMode == 0 ? "automatic" : c.dirMode == 1 ? "side" : "all", c.excl == 0 ? "default" : c.excl == 1 ? "forced" : "shared", c.mv == 0 ? "nothing" : c.mv == 1 ? "translate" : c.mv == 2 ? "resize" : c.mv == 3 ? "move-junctions" : c.mv == 4 ? "move-junctions+translate" : c.mv == 5 ? "reattach-to-second-shape+translate-first" : "reattach-to-second-shape+resize-first", c.cps, c.toJunction ? "junction" : "point", c.heap) + (c.early ? " move-before-first-transaction" : "") + (c.extra == 1 ? " +centre pin of another class" : c.extra == 2 ? " +four side pins of another class" : "") + (c.costs ? " +connection costs (50 on every other pin)" : "") + (c.cpDirs ? mcx::fmt(" checkpoint directions#%d", c.cpDirs) : string()); }
 
 static bool onSeg(Point a, Point b, Point p) { return fabs((b.x - a.x) * (p.y - a.y) - (p.x - a.x) * (b.y - a.y)) < 1e-6 && p.x >= min(a.x, b.x) - 1e-6 && p.x <= max(a.x, b.x) + 1e-6 && p.y >= min(a.y, b.y) - 1e-6 && p.y <= max(a.y, b.y) + 1e-6; }
 
@@ -39,6 +39,12 @@ static void run(unsigned pm, int k, const vector<pair<int, int>> &targets, const
             pins.push_back(p); npins++; }
         if (c.extra == 1) new ShapeConnectionPin(sh, 2, ATTACH_POS_CENTRE, ATTACH_POS_CENTRE, true, 0.0, ConnDirAll);
         if (c.extra == 2) for (int i = 0; i < 4; i++) new ShapeConnectionPin(sh, 2, DEFS[i].px, DEFS[i].py, true, c.inside, DEFS[i].side);
+        // a second shape with the same pin set (follow-ups 5/6: the connectors' pin ends are re-attached to IT in the transaction that also moves / resizes the first shape)
+        ShapeRef *sh2 = nullptr; vector<ShapeConnectionPin *> pins2;
+        if (c.mv >= 5) { Rectangle rect2(Point(5.5 * S, 1.5 * S), Point(6.5 * S, 2.5 * S)); sh2 = new ShapeRef(r, rect2);
+            for (int i = 0; i < 6; i++) if (pm >> i & 1) { ConnDirFlags d = c.dirMode == 0 ? (ConnDirFlags)ConnDirNone : c.dirMode == 1 ? DEFS[i].side : (ConnDirFlags)ConnDirAll;
+                ShapeConnectionPin *p = c.proportional ? new ShapeConnectionPin(sh2, 1, DEFS[i].px, DEFS[i].py, true, c.inside, d) : new ShapeConnectionPin(sh2, 1, DEFS[i].ax, DEFS[i].ay, false, c.inside, d);
+                if (c.excl == 1) p->setExclusive(true); else if (c.excl == 2) p->setExclusive(false); pins2.push_back(p); } }
         bool allExclusive = true; for (auto p : pins) if (!p->isExclusive()) allExclusive = false;
         vector<ConnRef *> cs; vector<JunctionRef *> js; vector<vector<Point>> cpl(k);
         for (int i = 0; i < k; i++) {
@@ -53,6 +59,9 @@ static void run(unsigned pm, int k, const vector<pair<int, int>> &targets, const
         if (c.mv == 1) { r->moveShape(sh, 0.25 * S, 0); r->processTransaction(); nTrans++; }
         else if (c.mv == 2) { Rectangle nr(Point(1.25 * S, 1.5 * S), Point(2.75 * S, 2.25 * S)); r->moveShape(sh, nr); r->processTransaction(); nTrans++; }
         else if (c.mv == 3 || c.mv == 4) { int q = 0; for (auto j : js) if (j) { if (q++ % 2 == 0) r->moveJunction(j, 0.5 * S, 0); else r->moveJunction(j, Point(j->position().x, j->position().y - 0.25 * S)); } if (c.mv == 4) r->moveShape(sh, 0.25 * S, 0); r->processTransaction(); nTrans++; }   // junctions moved in a LATER transaction (4: together with the shape)
+        else if (c.mv == 5 || c.mv == 6) { for (size_t ci = 0; ci < cs.size(); ci++) { if (ci % 2 == 0) cs[ci]->setSourceEndpoint(ConnEnd(sh2, 1)); else cs[ci]->setDestEndpoint(ConnEnd(sh2, 1)); }
+            if (c.mv == 5) r->moveShape(sh, 0.25 * S, 0); else { Rectangle nr(Point(1.25 * S, 1.5 * S), Point(2.75 * S, 2.25 * S)); r->moveShape(sh, nr); }
+            r->processTransaction(); nTrans++; pins = pins2; }
         else if (c.early) { r->processTransaction(); nTrans++; }
         if (k <= npins || !allExclusive) {
             nontriv = npins > 1;
@@ -111,6 +120,7 @@ int main(int argc, char **argv) {
         phase({(bool)ortho, 3, true, 1, 2, 0, 0, false, heap}, few, 2, 2);
         phase({(bool)ortho, 3, true, 1, 0, 1, 0, true, heap}, few, 2, 2);
         for (int mv = 3; mv <= 4; mv++) phase({(bool)ortho, 3, true, 1, 0, mv, 0, true, heap}, few, 2, 2);
+        for (int mv = 5; mv <= 6; mv++) for (int tj = 0; tj < 2; tj++) phase({(bool)ortho, 3, true, 1, 0, mv, 0, (bool)tj, heap}, few, 2, 2);
         phase({(bool)ortho, 3, true, 1, 0, 1, 1, false, heap}, few, 1, 1);
         phase({(bool)ortho, 3, true, 1, 0, 0, 2, false, heap}, few, 1, 2);
         phase({(bool)ortho, 0, true, 1, 0, 0, 0, false, heap}, few, 2, 2);   // pins exactly on the boundary: known-finding class
